@@ -92,19 +92,3 @@ Fixpoint mism_from {A} (f : A -> bool) (i : nat) (cs : list A) : list nat :=
   end.
 
 Definition mismatches (cs : list ecase) : list nat := mism_from case_ok 0 cs.
-
-(* concrete runs (also a smoke test of the executable model) *)
-Example check_three_workers :
-  model_obs [(false, Some 2); (false, None); (true, Some 0)] [ORel 1; OWait; ORel 2; ORel 0] =
-  [EObs 1 None None; EObs 1 None None; EObs 1 None None; EObs 3 (Some (Some 2)) (Some 2)].
-Proof. vm_compute. reflexivity. Qed.
-
-Example check_all_nil :
-  model_obs [(false, None); (false, None)] [ORel 0; ORel 1; OWait] =
-  [EObs 1 None None; EObs 2 None None; EObs 2 (Some None) (Some 0)].
-Proof. vm_compute. reflexivity. Qed.
-
-Example check_parent_first :
-  model_obs [(true, Some 0); (false, Some 3)] [ORel 0; OPar; OWait; ORel 1] =
-  [EObs 0 None None; EObs 1 None (Some 1); EObs 1 None (Some 1); EObs 2 (Some (Some 0)) (Some 1)].
-Proof. vm_compute. reflexivity. Qed.
